@@ -265,6 +265,11 @@ impl Report {
             );
             return 1;
         }
+        let watchdog = self.extra.get("watchdog_kills").and_then(|v| v.as_u64()).unwrap_or(0);
+        if watchdog > 0 {
+            let _ = writeln!(out, "{}: INCONCLUSIVE {} work item(s) were abandoned by the wall-clock watchdog (evaluations={} distinct={})", self.id, watchdog, self.evaluations, distinct);
+            return 2;
+        }
         if self.evaluations == 0 || distinct < 2 {
             let _ = writeln!(
                 out,
